@@ -3066,6 +3066,25 @@ fn build_type_of_ref1(
 	let mut full_type = base_type;
 	let mut is_indirect = false;
 
+	// The address of an element is a pointer to that element:
+	// the array that is indexed holds the elements, not pointers to them.
+	let ends_in_element = match steps.last()
+	{
+		Some(ReferenceStep::Element { .. }) => true,
+		_ => false,
+	};
+	if took_address && ends_in_element
+	{
+		match full_type
+		{
+			ValueType::Pointer { deref_type } =>
+			{
+				full_type = *deref_type;
+			}
+			_ => (),
+		}
+	}
+
 	for step in steps.iter().rev()
 	{
 		match step
